@@ -397,22 +397,9 @@ def run(repo, rep):
         else:
             rep.check(keyprovs == ['k0', 'k1'], 'C01.e', 'pretty_dict:key-order{insertion}', fd.where, 'iteration order of the dict',
                       'without sort_dict_keys the pairs are printed in the order %s instead of the dict\'s own order' % keyprovs, nontrivial=True)
-    srt = m.classes.get(__import__('engine.roles', fromlist=['x']).name(repo, 'sortable_cls'))
-    n += 1
-    ok = False
-    if srt is not None and srt.methods.get('__lt__') is not None:
-        lt = srt.methods['__lt__']
-        tries = [t for t in ast.walk(lt.node) if isinstance(t, ast.Try)]
-        ok = len(tries) == 1 and any(isinstance(r, ast.Return) and src(r.value) == 'self.value < other.value' for r in tries[0].body) \
-            and all(handler_catches(h, 'TypeError') and not handler_catches(h, 'Exception') for h in tries[0].handlers)
-    if ok:
-        # no answer is given before the natural comparison has been tried
-        tr = tries[0]
-        inside = {id(x) for part in (tr.body, *[h.body for h in tr.handlers]) for st_ in part for x in ast.walk(st_)}
-        early = [r for r in ast.walk(lt.node) if isinstance(r, ast.Return) and id(r) not in inside]
-        ok = not early
-    rep.check(ok, 'C01.e', '_AlwaysSortable.__lt__:natural-order-first', srt.where if srt else m.relpath,
-              'comparable keys are ordered by their own <', '_AlwaysSortable.__lt__ does not return self.value < other.value first', nontrivial=True)
+    # the sort key orders comparable keys by their own <, whatever else it does for the others (interpreted on pairs of constants)
+    from .common import report_sortkey
+    n += report_sortkey(repo, rep, 'C01.e', lambda label: label.startswith(('natural-order', 'defines-order')))
     rep.floor('C01.e', n, 2)
     rep.floor('C01.k', total_order_only(repo, rep, 'C01.k'), 2)
 
